@@ -15,6 +15,7 @@ mutual
 def c17c_occurs (n : String) : Ty → Bool
   | .typeVar m _ _ => m == n
   | .seq _ (some a) => c17c_occurs n a
+  | .valueOrList (some a) => c17c_occurs n a
   | .tupleFixed ts => c17c_occurss n ts
   | .mapping _ as => c17c_occurss n as
   | .union ts => c17c_occurss n ts
@@ -104,6 +105,9 @@ theorem c17c_subst_complete (σ : List (String × Ty)) (hσ : c17c_closed σ) : 
   | .seq o (some a), m, hm => by
     rw [c17_subst_seq]; simp only [c17c_occurs]; exact c17c_subst_complete σ hσ a m hm
   | .seq o none, _, _ => by simp only [substTy, c17c_occurs]
+  | .valueOrList (some a), m, hm => by
+    rw [c17_subst_vol]; simp only [c17c_occurs]; exact c17c_subst_complete σ hσ a m hm
+  | .valueOrList none, _, _ => by simp only [substTy, c17c_occurs]
   | .tupleFixed ts, m, hm => by
     rw [c17_subst_tupleFixed]; simp only [c17c_occurs]; exact c17c_substs_complete σ hσ ts m hm
   | .mapping o ts, m, hm => by
